@@ -23,6 +23,13 @@ type lumEv struct {
 	Op    string  `json:"op"`
 	Kind  string  `json:"kind"`  // new: rgb | yuv | sym | <go image type>
 	Bin   int     `json:"bin"`   // 0 GlobalHistogramBinarizer, 1 HybridBinarizer
+	Pre   int     `json:"pre"`   // brot / bcrop: request the parent bitmap's matrix before making the child, and log it again afterwards
+	Pw    int     `json:"pw"`    // parent bitmap afterwards: dimensions, matrix dimensions, matrix, error class
+	Ph    int     `json:"ph"`
+	Pmw   int     `json:"pmw"`
+	Pmh   int     `json:"pmh"`
+	Pst   [][]int `json:"pst"`
+	Perr  int     `json:"perr"`
 	Adopt int     `json:"adopt"` // crop: make the result the current view (when the call succeeded)
 	A     []int   `json:"a"`
 	Ys    []int   `json:"ys"`   // rows to record in full (-1 anywhere: all rows)
@@ -269,6 +276,7 @@ func main() {
 			return nil, err
 		}
 		e.Yl, e.Px, e.Ck, e.St, e.St2, e.RRow = []int{}, [][]int{}, []int{}, [][]int{}, [][]int{}, []int{}
+		e.Pst = [][]int{}
 		if e.A == nil {
 			e.A = []int{}
 		}
@@ -421,6 +429,18 @@ func main() {
 			case "bmatrix", "bcrop", "brot":
 				bb, _ := gozxing.NewBinaryBitmap(binarizer(e.Bin, cur))
 				var err error
+				if e.Pre == 1 && e.Op != "bmatrix" {
+					parent := bb
+					parent.GetBlackMatrix()
+					defer func() { // the parent must be what it was, whatever was done with the child
+						e.Pw, e.Ph = parent.GetWidth(), parent.GetHeight()
+						pm, perr := parent.GetBlackMatrix()
+						e.Perr = errClass(perr)
+						if perr == nil {
+							e.Pmw, e.Pmh, e.Pst = logBits(pm)
+						}
+					}()
+				}
 				if e.Op == "bcrop" {
 					bb, err = bb.Crop(a[0], a[1], a[2], a[3])
 				} else if e.Op == "brot" {
